@@ -18,6 +18,11 @@ type txStore struct {
 	*recStore
 }
 
+// txKey carries the transaction token in the context BeginTX returns (storage.Transactional's contract:
+// "the storage provider will examine context for an existing transaction each time a database operation
+// is to be performed")
+type txKey struct{}
+
 type storeSnap struct {
 	codes    map[string]storage.StoreAuthorizeCode
 	ids      map[string]fosite.Requester
@@ -65,17 +70,20 @@ func (s *recStore) restore(p *storeSnap) {
 
 func (t txStore) BeginTX(ctx context.Context) (context.Context, error) {
 	s := t.recStore
+	s.enter(ctx)
 	if err := s.fault(); err != nil {
 		s.log("beginTx=%s", resClass(err))
 		return ctx, err
 	}
 	s.snap = s.snapshot()
+	s.txSeq++
 	s.log("beginTx=ok")
-	return ctx, nil
+	return context.WithValue(ctx, txKey{}, s.txSeq), nil
 }
 
 func (t txStore) Commit(ctx context.Context) error {
 	s := t.recStore
+	s.enter(ctx)
 	if err := s.fault(); err != nil {
 		s.log("commitTx=%s", resClass(err))
 		return err
@@ -87,6 +95,7 @@ func (t txStore) Commit(ctx context.Context) error {
 
 func (t txStore) Rollback(ctx context.Context) error {
 	s := t.recStore
+	s.enter(ctx)
 	if err := s.fault(); err != nil {
 		s.log("rollbackTx=%s", resClass(err))
 		return err
